@@ -12,7 +12,7 @@ HERE = os.path.dirname(os.path.abspath(__file__))
 VERIF = os.path.dirname(HERE)
 sys.path.insert(0, VERIF)
 
-from sa.report import AnalysisError, Report, UnprovenScope, load_known  # noqa: E402
+from sa.report import AnalysisError, Report, Unproven, UnprovenScope, load_known  # noqa: E402
 
 ALL = [f"C{i:02d}" for i in range(1, 21)]
 
@@ -42,6 +42,15 @@ def run_one(prop: str, tier: str, root: str, evidence_dir: str) -> int:
                 r.fail(e.qual, f"{e.qual} uses `{kind}` (line {line}), a construct outside the analysed subset; the argument for this "
                                f"property depends on this function, so the property is not proved for this tree",
                        file=e.path, line=line, stmt=kind)
+            return rep.finish(load_known(), evidence_dir)
+        except Exception:
+            traceback.print_exc()
+            print(f"ANALYSIS-ERROR property={prop} checker raised (see traceback)")
+            return 2
+    except Unproven as e:
+        try:
+            r = rep.rule("decidable", "every value the rules must evaluate statically is still a constant of the tree")
+            r.fail(e.construct, f"{e.message}; the premise that needs it is not proved for this tree", file=e.path, line=e.line, stmt=e.construct)
             return rep.finish(load_known(), evidence_dir)
         except Exception:
             traceback.print_exc()
